@@ -79,7 +79,7 @@ class Describer:
         if isinstance(e, ast.Attribute) and e.attr == 'lastrowid':
             # the rowid of the row the importer has just inserted (the lexicon row in _insert_lexicon)
             return 'lexid'
-        if isinstance(e, ast.Call) and isinstance(e.func, ast.Name) and depth < 6:
+        if isinstance(e, ast.Call) and isinstance(e.func, ast.Name) and depth < 14:
             inl = self._inliner()
             if e.func.id in inl.simple:
                 from .inline import clone
